@@ -366,7 +366,7 @@ pub fn subs() -> Vec<Box<dyn DynSub>> {
 }
 
 pub fn run(ctx: &Ctx) {
-    let n = ctx.n(4_000_000, 60_000_000);
+    let n = ctx.n(4_000_000, 180_000_000);
     ctx.run_prop(&DtDur, n);
     ctx.run_prop(&DtPair, n);
     ctx.run_prop(&DateDays, n);
